@@ -2554,7 +2554,11 @@ class Env(cabc.MutableMapping):
         Note! If env variable wasn't explicitly set (e.g. the value has default value in ``Xettings``)
         it will be not in this list.
         """
-        if self._detyped is not None and not self._overlay_stack:
+        # The cache is shared by all threads, so it only ever holds the view
+        # of a thread without alias overlays and without swapped values; a
+        # thread that has either builds its own mapping.
+        cacheable = not self._overlay_stack and not self._d._local
+        if self._detyped is not None and cacheable:
             return self._detyped
         ctx = {}
         items = dict(self._d)
@@ -2580,7 +2584,7 @@ class Env(cabc.MutableMapping):
                 # cannot be detyped
                 continue
             ctx[key] = deval
-        if not self._overlay_stack:
+        if cacheable:
             self._detyped = ctx
         return ctx
 
